@@ -294,24 +294,49 @@ def range_helper_rule(repo, res):
         raise AnalysisError(f"{fn.where()}: per-axis loop not found")
     lp = loops[0]
     i = lp.target.id
-    res.check(norm(lp.iter) in (f"range(len({units}))", "range(ndim)") and (norm(lp.iter) != "range(ndim)" or any(isinstance(n, ast.Assign) and norm(n) == f"ndim = len({units})" for n in fn.body)), "loop-over-axes", fn.where(lp), "the loop runs over the axes (one per unit)", found=norm(lp.iter), rid=r5)
-    # every subscript of `units` inside the loop
-    subs = [n for n in ast.walk(lp) if isinstance(n, ast.Subscript) and norm(n.value) == units]
-    conv = []
-    for n in ast.walk(lp):
-        if isinstance(n, ast.Call) and isinstance(n.func, ast.Attribute) and n.func.attr in ("to_value", "to", "in_units") and n.args:
-            conv.append(n)
-    res.check(len(conv) == 2 and all(norm(c.args[0]) == f"{units}[{i}]" for c in conv), "convert-into-own-axis-unit", fn.where(conv[0]) if conv else fn.where(lp), f"both limits of axis {i} must be converted into {units}[{i}]: converting into another axis' unit relabels instead of rescaling whenever the axes use different units of one dimension", f"x.to_value({units}[{i}]) twice", [norm(c) for c in conv], rid=r5)
-    others = [n for n in subs if norm(n.slice) != i]
-    ok_other = True
-    for n in others:
-        # a constant index is acceptable only under the single-axis guard
-        guard = [g for g in ast.walk(lp) if isinstance(g, ast.If) and norm(g.test) in (f"len({units}) == 1", "ndim == 1") and any(x is n for b in g.body for x in ast.walk(b))]
-        ok_other &= norm(n.slice) == "0" and bool(guard)
-    res.check(ok_other, "constant-index-only-single-axis", fn.where(lp), f"{units}[0] may stand for the axis unit only when there is exactly one axis", found=[norm(n) for n in others], rid=r5)
-    rows = [n for n in ast.walk(lp) if isinstance(n, ast.Assign) and isinstance(n.targets[0], ast.Subscript) and norm(n.targets[0].slice) == i]
+    from engine.sem import canon_expr, summarise
+
+    res.check(canon_expr(lp.iter, fn) in (f"range(len({units}))",), "loop-over-axes", fn.where(lp), "the loop runs over the axes (one per unit)", found=canon_expr(lp.iter, fn), rid=r5)
+    sums = summarise(fn, body=lp.body, keep={i})
+    n_store = 0
+    ok_conv = ok_const = ok_row = True
+    found = []
+    for x in sums:
+        if x.kind == "raise":
+            continue
+        stores = []
+        for eff in x.effects:
+            try:
+                node = ast.parse(eff).body[0]
+            except SyntaxError:
+                continue
+            # limits rescaled as bare numbers: `imin *= units[K]`
+            for sub in ast.walk(node):
+                if isinstance(sub, ast.Subscript) and norm(sub.value) == units and norm(sub.slice) != i:
+                    single = x.has(f"len({units}) == 1", True)
+                    ok_const &= norm(sub.slice) == "0" and single
+                    if not (norm(sub.slice) == "0" and single):
+                        found.append(eff)
+            if isinstance(node, ast.Assign) and isinstance(node.targets[0], ast.Subscript) and isinstance(node.value, ast.Tuple) and len(node.value.elts) == 2:
+                stores.append(node)
+        if len(stores) != 1:
+            ok_row = False
+            found.append(("no single row store", x.effects))
+            continue
+        n_store += 1
+        st = stores[0]
+        ok_row &= norm(st.targets[0].slice) == i
+        for el in st.value.elts:
+            good = isinstance(el, ast.Call) and isinstance(el.func, ast.Attribute) and el.func.attr in ("to_value",) and len(el.args) == 1 and norm(el.args[0]) == f"{units}[{i}]"
+            ok_conv &= good
+            if not good:
+                found.append(norm(el))
+    if n_store == 0:
+        raise AnalysisError(f"{fn.where(lp)}: the per-axis row store was not found")
+    res.check(ok_conv, "convert-into-own-axis-unit", fn.where(lp), f"both limits of axis {i} must be converted into {units}[{i}]: converting into another axis' unit relabels instead of rescaling whenever the axes use different units of one dimension", f"x.to_value({units}[{i}]) twice", found[:3], rid=r5)
+    res.check(ok_const, "constant-index-only-single-axis", fn.where(lp), f"{units}[0] may stand for the axis unit only when there is exactly one axis", found=found[:3], rid=r5)
     sl = [n for n in ast.walk(lp) if isinstance(n, ast.Subscript) and norm(n.value) == rng]
-    res.check(len(rows) == 1 and len(sl) == 1 and norm(sl[0].slice).replace(" ", "") in (f"2*{i}:2*({i}+1)", f"2*{i}:2*{i}+2"), "row-and-slice-index", fn.where(lp), f"limits are read from position {i} of the flat range and stored in row {i}", found=[norm(x) for x in sl + rows][:3], rid=r5)
+    res.check(ok_row and len(sl) == 1 and norm(sl[0].slice).replace(" ", "") in (f"2*{i}:2*({i}+1)", f"2*{i}:2*{i}+2"), "row-and-slice-index", fn.where(lp), f"limits are read from position {i} of the flat range and stored in row {i}", found=[norm(x) for x in sl][:3], rid=r5)
 
 
 def wrapup_rule(repo, res):
